@@ -619,8 +619,12 @@ func (cfg *Config) handshakeMaintenance(ctx context.Context, hello *tls.ClientHe
 		}
 
 		// our copy of cert has the new OCSP staple, so replace it in the cache
+		// (unless it has been removed or replaced in the meantime: putting it
+		// back would leave it in the cache without any entry in the name index)
 		cfg.certCache.mu.Lock()
-		cfg.certCache.cache[cert.hash] = cert
+		if _, ok := cfg.certCache.cache[cert.hash]; ok {
+			cfg.certCache.cache[cert.hash] = cert
+		}
 		cfg.certCache.mu.Unlock()
 	}
 
